@@ -5,7 +5,7 @@
 set -u
 D="$(cd "$1" && pwd)"
 WT=/tmp/vs-wt-$$
-export CARGO_TARGET_DIR=/tmp/vs-target
+export CARGO_TARGET_DIR=/tmp/vs-target-${VS_SLOT:-0}
 git -C /repo worktree add -q --detach $WT HEAD || exit 3
 trap 'git -C /repo worktree remove --force $WT' EXIT
 cd $WT
